@@ -605,4 +605,147 @@ theorem collapse_reps_eq {hits : List (Hit S)} (hs : Sorted lt hits) (ht : Total
 
 end Collapse
 
+
+/-! ## membership of inner hits -/
+
+section InnerMem
+variable {S : Type} (lt ilt : Hit S → Hit S → Bool) (cfg : Option InnerCfg) (same : Bool)
+
+theorem mem_innerOf {rest : List (Hit S)} {x : Hit S} (h : x ∈ innerOf ilt cfg same rest) : x ∈ rest := by
+  unfold innerOf at h
+  cases cfg with
+  | none => simp at h
+  | some c =>
+    simp only at h
+    have hl : ∀ y, y ∈ (if same = true then rest else isort ilt rest) → y ∈ rest := by
+      intro y hy
+      split at hy
+      · exact hy
+      · exact mem_isort.mp hy
+    cases hsz : c.size with
+    | none =>
+      rw [hsz] at h
+      exact hl x (List.mem_of_mem_drop h)
+    | some n =>
+      rw [hsz] at h
+      exact hl x (List.mem_of_mem_drop (List.mem_of_mem_take h))
+
+theorem collapse_inner_mem {hits : List (Hit S)} {p : Hit S × List (Hit S)}
+    (h : p ∈ collapse lt ilt cfg same hits) : ∀ i ∈ p.2, i ∈ hits := by
+  obtain ⟨g, _, hg⟩ := mem_collapse lt ilt cfg same h
+  obtain ⟨rest, hs, hin⟩ := grpRep_some lt ilt cfg same hg
+  intro i hi
+  rw [hin] at hi
+  have h1 : i ∈ rest := mem_innerOf ilt cfg same hi
+  have h2 : i ∈ isort lt (members g hits) := by rw [hs]; exact List.mem_cons_of_mem _ h1
+  exact (mem_members.mp (mem_isort.mp h2)).1
+
+end InnerMem
+
+/-! ## the pipeline does not look at explanations (`stripHit` commutes with every stage) -/
+
+section Strip
+variable {S : Type} (o : ScoreOps S)
+
+theorem planCmp_congr (p : Plan) {a a' b b' : Hit S}
+    (ha : a'.score = a.score ∧ a'.flds = a.flds ∧ a'.seg = a.seg ∧ a'.doc = a.doc)
+    (hb : b'.score = b.score ∧ b'.flds = b.flds ∧ b'.seg = b.seg ∧ b'.doc = b.doc) :
+    planCmp o p a' b' = planCmp o p a b := by
+  obtain ⟨a1, a2, a3, a4⟩ := ha
+  obtain ⟨b1, b2, b3, b4⟩ := hb
+  induction p with
+  | nil => simp only [planCmp, a3, a4, b3, b4]
+  | cons sp r ih => simp only [planCmp, partCmp, a1, a2, b1, b2, ih]
+
+theorem klt_strip (p : Plan) (a b : Hit S) : klt o p (stripHit a) (stripHit b) = klt o p a b := by
+  unfold klt
+  rw [planCmp_congr o p (a := a) (a' := stripHit a) (b := b) (b' := stripHit b)
+    ⟨rfl, rfl, rfl, rfl⟩ ⟨rfl, rfl, rfl, rfl⟩]
+
+theorem isort_strip (p : Plan) (l : List (Hit S)) :
+    isort (klt o p) (l.map stripHit) = (isort (klt o p) l).map stripHit :=
+  isort_map stripHit (klt o p) (klt_strip o p) l
+
+theorem applyResc_strip (mode : Mode) (e : Bool) (h : Hit S) :
+    (applyResc o mode e h).map stripHit = applyResc o mode false (stripHit h) := by
+  unfold applyResc
+  cases hr : h.resc with
+  | noMatch => simp [stripHit, hr]
+  | rejected => simp [stripHit, hr]
+  | val r => cases e <;> simp [stripHit, hr]
+
+theorem filterMap_applyResc_strip (mode : Mode) (e : Bool) (l : List (Hit S)) :
+    (l.filterMap (applyResc o mode e)).map stripHit = (l.map stripHit).filterMap (applyResc o mode false) := by
+  rw [List.map_filterMap, List.filterMap_map]
+  apply filterMap_congr'
+  intro h _
+  simp [Function.comp, applyResc_strip]
+
+theorem rescoreSpec_strip (p : Plan) (mode : Mode) (e : Bool) (w : Nat) (l : List (Hit S)) :
+    (rescoreSpec o (klt o p) mode e w l).map stripHit = rescoreSpec o (klt o p) mode false w (l.map stripHit) := by
+  unfold rescoreSpec
+  rw [List.map_append, ← isort_strip, filterMap_applyResc_strip, List.map_take, List.map_drop]
+
+theorem rescore_strip (p : Plan) (mode : Mode) (e : Bool) (w : Nat) (l : List (Hit S)) :
+    (rescore o (klt o p) mode e w l).map stripHit = rescore o (klt o p) mode false w (l.map stripHit) := by
+  unfold rescore
+  rw [List.length_map]
+  split
+  · rfl
+  · simp only
+    rw [List.map_append, ← isort_strip, List.map_take, List.map_drop, List.map_append,
+      filterMap_applyResc_strip, List.map_take, List.map_drop]
+
+theorem strip_setFinal (h : Hit S) : stripHit (setFinal h) = stripHit h := rfl
+
+/-- `stripHit` on a group: representative and inner hits -/
+def stripPair (p : Hit S × List (Hit S)) : Hit S × List (Hit S) := (stripHit p.1, p.2.map stripHit)
+
+theorem members_strip (g : Nat) (l : List (Hit S)) :
+    members g (l.map stripHit) = (members g l).map stripHit := by
+  unfold members
+  rw [List.filter_map]
+  rfl
+
+theorem innerOf_strip (ip : Plan) (cfg : Option InnerCfg) (same : Bool) (rest : List (Hit S)) :
+    innerOf (klt o ip) cfg same (rest.map stripHit) = (innerOf (klt o ip) cfg same rest).map stripHit := by
+  unfold innerOf
+  cases cfg with
+  | none => rfl
+  | some c =>
+    simp only
+    have hl : (if same = true then rest.map stripHit else isort (klt o ip) (rest.map stripHit)) =
+        (if same = true then rest else isort (klt o ip) rest).map stripHit := by
+      split
+      · rfl
+      · exact isort_strip o ip rest
+    rw [hl]
+    cases c.size with
+    | none => simp only; rw [List.map_drop]
+    | some n => simp only; rw [List.map_take, List.map_drop]
+
+theorem grpRep_strip (p ip : Plan) (cfg : Option InnerCfg) (same : Bool) (l : List (Hit S)) (g : Nat) :
+    grpRep (klt o p) (klt o ip) cfg same (l.map stripHit) g =
+      (grpRep (klt o p) (klt o ip) cfg same l g).map stripPair := by
+  unfold grpRep
+  rw [members_strip, isort_strip]
+  cases isort (klt o p) (members g l) with
+  | nil => rfl
+  | cons top rest =>
+    simp only [List.map_cons, Option.map_some, stripPair]
+    rw [innerOf_strip]
+
+theorem collapse_strip (p ip : Plan) (cfg : Option InnerCfg) (same : Bool) (l : List (Hit S)) :
+    collapse (klt o p) (klt o ip) cfg same (l.map stripHit) =
+      (collapse (klt o p) (klt o ip) cfg same l).map stripPair := by
+  rw [collapse_eq, collapse_eq, List.map_filterMap]
+  have hk : (l.map stripHit).filterMap (·.grp) = l.filterMap (·.grp) := by
+    rw [List.filterMap_map]; rfl
+  rw [hk]
+  apply filterMap_congr'
+  intro g _
+  exact grpRep_strip o p ip cfg same l g
+
+end Strip
+
 end SL.Post
